@@ -3,48 +3,74 @@ package main
 // Generator of the crash engine (C06): ledGen chain histories (extend / reorg / late notifications /
 // unconfirmed transactions / new addresses) plus wallet creation in mid-history, explicit process
 // restarts (`boot`: the real Start catch-up, `restart`: NewWalletManager only), and - in a share of the
-// histories - background work (import of an external wallet with history, removal). Observations are
-// emitted only after the notification queue is drained; the history ends with `commits` and
+// histories ("bg") - background work: import of an external wallet that has history on the chain and
+// removal of a wallet, driven step by step. Observations are emitted only after the notification queue
+// is drained; in bg histories they are `rec` ops (recorded for the twin-vs-crash comparison only: the
+// ledger model does not cover import / removal). The history ends with `commits` (plain histories) and
 // `crashall D M` (every wallet-database commit of the history as crash point).
 
-import "fmt"
-
-type crashGen struct {
-	l *ledGen
-	g *Gen
-}
-
-func (c *crashGen) quiesce(full bool) {
-	c.l.drain()
-	c.l.observe(full)
-	c.l.op("q-wallets", "wallets")
-}
+import (
+	"fmt"
+	"strings"
+)
 
 func genCrash(g *Gen) {
-	nHist := g.Scale(10, 160)
+	nHist := g.Scale(15, 150)
 	for h := 0; h < nHist; h++ {
-		l := newLedGen(g, "crash")
-		c := &crashGen{l: l, g: g}
+		bg := h%3 == 2
+		rw := newLineRewriter(g, "crash")
+		l := rw.l
+		flush := func() {
+			rw.flush(func(op, body string) (string, string) {
+				if bg && isObservation(strings.Fields(body)) {
+					return "rec", "rec " + body
+				}
+				return "", body
+			})
+		}
+		quiesce := func(full bool) {
+			l.drain()
+			l.observe(full)
+			l.op("q-wallets", "wallets")
+			flush()
+		}
 		l.start(1 + g.Rng.Intn(2))
+		flush()
 		steps := 6 + g.Rng.Intn(g.Scale(10, 24))
 		boots := 0
 		lazy := g.Rng.Intn(3) == 0
+		imp := ""     // external wallet prepared / imported
+		impState := 0 // 0 none, 1 prepared, 2 imported (importing), 3 done
+		removed := ""
+		if bg {
+			imp = "WI"
+			rw.emit("mkimport", "mkimport WI 2")
+			impState = 1
+			// ledGen pays WI's addresses like any wallet's, but never issues new ones for it
+			l.wallets = append(l.wallets, imp)
+			for i := 0; i < l.maxAddr; i++ {
+				a := fmt.Sprintf("WIa%d", 1+i%2)
+				l.addrs[imp] = append(l.addrs[imp], a)
+				l.owner[a] = imp
+			}
+		}
 		for s := 0; s < steps; s++ {
 			switch k := g.Rng.Intn(24); {
 			case k < 9:
 				l.extend()
 			case k < 12:
 				l.reorgTo(1+g.Rng.Intn(g.Scale(3, 6)), 1+g.Rng.Intn(2))
-			case k < 16:
+			case k < 15:
+				prunePool(l)
 				l.recv()
-			case k < 18:
+			case k < 17:
 				l.newAddr(l.wallets[g.Rng.Intn(len(l.wallets))])
-			case k < 19 && len(l.wallets) < 4:
+			case k < 18 && len(l.wallets) < 4 && !bg:
 				w := fmt.Sprintf("W%d", len(l.wallets)+1)
 				l.wallets = append(l.wallets, w)
 				l.op("wallet-mid", "wallet %s", w)
 				l.newAddr(w)
-			case k < 21 && boots < 1:
+			case k < 20 && boots < 1:
 				boots++
 				// process death and restart of the uninterrupted run itself; the node may be ahead
 				l.op("boot", "boot")
@@ -53,24 +79,69 @@ func genCrash(g *Gen) {
 					l.queue = nil
 					l.g.Stats["boot-drops-queue"]++
 				}
-			case k < 22 && boots < 2:
+			case k < 21 && boots < 2 && !bg:
 				boots++
 				l.op("restart", "restart")
+			case k < 23 && bg:
+				flush()
+				switch {
+				case impState == 1 && s >= 2:
+					l.drain()
+					flush()
+					rw.emit("import", "import WI")
+					impState = 2
+				case impState == 2:
+					rw.emit("importstep", "importstep WI")
+					if g.Rng.Intn(3) > 0 {
+						rw.emit("importstep", "importstep WI")
+						impState = 3
+					}
+				case removed == "" && impState != 2 && len(l.wallets) > 2:
+					// remove one of the original wallets
+					w := l.wallets[0]
+					l.drain()
+					flush()
+					rw.emit("remove", "remove "+w)
+					if g.Rng.Intn(2) == 0 {
+						l.extend() // a block arrives between marking and the removal run
+						flush()
+					}
+					rw.emit("removerun", "removerun "+w)
+					removed = w
+					l.wallets = l.wallets[1:]
+				}
 			default:
 				l.processOne()
 			}
+			flush()
 			if !lazy || g.Rng.Intn(4) == 0 {
-				c.quiesce(g.Rng.Intn(3) == 0)
+				quiesce(g.Rng.Intn(3) == 0)
 			} else if g.Rng.Intn(3) == 0 {
 				l.processOne()
+				flush()
 			}
 		}
-		c.quiesce(true)
-		l.op("commits", "commits")
-		if g.Rng.Intn(g.Scale(6, 3)) == 0 {
-			l.op("crashall-2", "crashall 2 %d", g.Scale(5, 3))
+		if impState == 1 {
+			l.drain()
+			flush()
+			rw.emit("import", "import WI")
+			impState = 2
+		}
+		if impState == 2 {
+			l.drain()
+			flush()
+			rw.emit("importstep", "importstep WI")
+			rw.emit("importstep", "importstep WI")
+			rw.emit("importstep", "importstep WI")
+		}
+		quiesce(true)
+		if !bg {
+			rw.emit("commits", "commits")
+		}
+		if g.Rng.Intn(g.Scale(5, 3)) == 0 {
+			rw.emit("crashall-2", fmt.Sprintf("crashall 2 %d", g.Scale(5, 3)))
 		} else {
-			l.op("crashall-1", "crashall 1 1")
+			rw.emit("crashall-1", "crashall 1 1")
 		}
 	}
 }
